@@ -60,6 +60,10 @@ def enc_value(v):
 
 def enc_term(t):
     k = t[0]
+    if k == "pc":
+        e = enc_value(t[1] / 100)
+        e["k"] = "c"
+        return e
     if k == "c":
         e = enc_value(t[1])
         e["k"] = "c"
@@ -180,7 +184,9 @@ def observe(case):
     if isinstance(r, bool):
         r = int(r)
     if isinstance(r, int):
-        return {"t": "int", "b": limbs(r), "q": [0, 0], "whole": none_whole, "neg": r < 0}
+        if r.bit_length() > 200000:
+            return {"t": "int", "b": limbs(0), "q": [0, 0], "whole": none_whole, "neg": r < 0, "huge": True}
+        return {"t": "int", "b": limbs(r), "q": [0, 0], "whole": none_whole, "neg": r < 0, "huge": False}
     if isinstance(r, float):
         if r != r:
             return {"t": "nan"}
@@ -301,6 +307,23 @@ def domain(ctx):
         cases.append({"term": ("abs", ("neg", V("x"))), "ctx": {"x": hv}})
         cases.append({"term": ("pow", V("x"), C(2)), "ctx": {"x": hv}})
         cases.append({"term": ("div", V("y"), C(4)), "ctx": {"x": hv, "y": 2}})
+    # user-defined literals (a ConstantExpression subclass with its own evaluate) in every operand position
+    for pv in (50, 25, 200):
+        P_ = ("pc", pv)
+        for o in ("add", "sub", "mul", "div"):
+            cases.append({"term": (o, C(1), P_), "ctx": {}})
+            cases.append({"term": (o, P_, V("x")), "ctx": {"x": 4}})
+            cases.append({"term": (o, ("mul", C(4), P_), P_), "ctx": {}})
+        cases.append({"term": P_, "ctx": {}})
+        cases.append({"term": ("neg", P_), "ctx": {}})
+        cases.append({"term": ("abs", ("sub", P_, C(3))), "ctx": {}})
+        cases.append({"term": ("pow", P_, C(2)), "ctx": {}})
+        cases.append({"term": ("eq", P_, ("div", C(pv), C(100))), "ctx": {}})
+    # factorials of hundreds of thousands (a second of work, millions of bits): still an exact integer - judged by type and by the
+    # identity n! - n * (n-1)! = 0
+    for n in (233016, 233017, 240000):
+        cases.append({"term": ("fact", C(n)), "ctx": {}})
+        cases.append({"term": ("sub", ("fact", C(n)), ("mul", C(n), ("fact", C(n - 1)))), "ctx": {}})
     # factorials feeding arithmetic beyond 64 bits
     for n in (15, 18, 20):
         cases.append({"term": ("mul", ("fact", C(n)), V("x")), "ctx": {"x": 20}})
@@ -352,6 +375,8 @@ def sig(case, cl):
 
     def shape(t):
         k = t[0]
+        if k == "pc":
+            return "userliteral"
         if k == "c":
             v = t[1]
             if isinstance(v, float):
